@@ -1,4 +1,5 @@
 import MindsVerif.Lemmas.RouteInfo
+import MindsVerif.Lemmas.RouteModel
 /-!
 # C10 — every table and model is routed to the place its name resolves to
 
@@ -28,20 +29,23 @@ def C10_resolvers_full : Prop :=
   ∀ (c : Catalog) (parts : List Name), defaultOk c = true → parts ≠ [] →
     routeJoinOperand c parts = routeSimple c parts
 
-/-- where a table reference of a query pushed to `i` may legitimately live: in `i`, or it is a CTE name -/
-def belongs (c : Catalog) (ctes : List Name) (i : Name) (parts : List Name) : Prop :=
+/-- where a table reference of a query pushed to `i` may legitimately live: in `i`, or it is a CTE name
+(`skip`: the repaired `get_query_info` of fixes/C11_1.diff does not resolve bare CTE names at all) -/
+def belongs (skip : Bool) (c : Catalog) (ctes : List Name) (i : Name) (parts : List Name) : Prop :=
+  (skip = true ∧ isCteRef ctes parts = true) ∨
   ∃ integ rest, resolveSimple c parts = some (integ, rest) ∧
-    ((integ = i ∧ i ∉ c.projects) ∨ (integ ∈ c.projects ∧ joinDots parts ∈ ctes))
+    ((integ = i ∧ i ∉ c.projects) ∨ (integ ∈ c.projects ∧ skip = false ∧ joinDots parts ∈ ctes))
 
 /-- (ii) a query pushed down whole mentions no table that belongs elsewhere -/
 def C10_pushdown_full : Prop :=
-  ∀ (c : Catalog) (ctes : List Name) (q : Node) (steps : List Step), planTop c ctes q = some steps →
-    ∃ i, steps = [.fetch i (strip i .noFrom .arg q)] ∧ ∀ parts ∈ allTables .arg q, belongs c ctes i parts
+  ∀ (skip : Bool) (names : List Name) (c : Catalog) (ctes : List Name) (q : Node) (steps : List Step),
+    planTop skip names c ctes q = some steps →
+    ∃ i, steps = [.fetch i (strip i names .noFrom .arg q)] ∧ ∀ parts ∈ allTables .arg q, belongs skip c ctes i parts
 
 /-- (iii) after `prepare_integration_select db` no identifier the walker visits is still qualified by `db` -/
 def C10_stripped_full : Prop :=
-  ∀ (db : Name) (par : Par) (s : Slot) (n : Node),
-    ∀ y ∈ visitedIdents (strip db par s n), qualifiedBy db y.1 y.2 = false
+  ∀ (db : Name) (names : List Name) (par : Par) (s : Slot) (n : Node),
+    ∀ y ∈ visitedIdents s (strip db names par s n), qualifiedBy db y.1 y.2.1 = false
 
 /-- (iv) a model in a join gets the namespace its name resolves to, the rest of the name (with version) kept -/
 def C10_model_join_full : Prop :=
@@ -139,41 +143,50 @@ theorem C10_regression_6 :
 /-! ## T10.3 -/
 
 /-- the cut removes exactly the first part; unless an identifier spells the integration name twice
-in front (`int1.int1.t`, a schema named like the integration) nothing visited is still qualified -/
-theorem C10_partial_stripped (db : Name) (par : Par) (s : Slot) (n : Node)
-    (h : ∀ x ∈ visitedIdents n, doubleQual db x.1 x.2 = false) :
-    ∀ y ∈ visitedIdents (strip db par s n), qualifiedBy db y.1 y.2 = false := by
+in front (`int1.int1.t`, a schema named like the integration), or is a two-part column reference through an
+alias / CTE called like the integration that the repaired cut leaves alone (`keepsLocal`), nothing visited is
+still qualified.  With `names = []` (the code today) or `db ∉ names` the second exception is empty. -/
+theorem C10_partial_stripped (db : Name) (names : List Name) (par : Par) (s : Slot) (n : Node)
+    (h : ∀ x ∈ visitedIdents s n, doubleQual db x.1 x.2.1 = false ∧ keepsLocal db names x.2.2 x.1 x.2.1 = false) :
+    ∀ y ∈ visitedIdents s (strip db names par s n), qualifiedBy db y.1 y.2.1 = false := by
   intro y hy
   rw [visitedIdents_strip] at hy
   obtain ⟨x, hx, rfl⟩ := List.mem_map.mp hy
-  exact not_qualified_after_cut db x.1 x.2 (h x hx)
+  exact not_qualified_after_cutN db names x.2.2 x.1 x.2.1 (h x hx).1 (h x hx).2
+
+theorem C10_partial_stripped_today (db : Name) (par : Par) (s : Slot) (n : Node)
+    (h : ∀ x ∈ visitedIdents s n, doubleQual db x.1 x.2.1 = false) :
+    ∀ y ∈ visitedIdents s (strip db [] par s n), qualifiedBy db y.1 y.2.1 = false :=
+  C10_partial_stripped db [] par s n (fun x hx => ⟨h x hx, keepsLocal_of_not_mem db [] _ _ _ (by simp)⟩)
 
 /-- the visited identifiers of the pushed query are exactly the original ones with the cut applied -/
-theorem C10_stripped_exact (db : Name) (par : Par) (s : Slot) (n : Node) :
-    visitedIdents (strip db par s n) = (visitedIdents n).map (cutId db) := visitedIdents_strip db par s n
+theorem C10_stripped_exact (db : Name) (names : List Name) (par : Par) (s : Slot) (n : Node) :
+    visitedIdents s (strip db names par s n) = (visitedIdents s n).map (cutId db names) :=
+  visitedIdents_strip db names par s n
 
-theorem planTop_spec (c : Catalog) (ctes : List Name) (q : Node) (steps : List Step)
-    (h : planTop c ctes q = some steps) :
-    ∃ i, checkSingle c ctes (visit .arg q) = some i ∧ steps = [.fetch i (strip i .noFrom .arg q)] := by
+theorem planTop_spec (skip : Bool) (names : List Name) (c : Catalog) (ctes : List Name) (q : Node) (steps : List Step)
+    (h : planTop skip names c ctes q = some steps) :
+    ∃ i, checkSingle skip c ctes (visit .arg q) = some i ∧ steps = [.fetch i (strip i names .noFrom .arg q)] := by
   unfold planTop at h
-  cases hc : checkSingle c ctes (visit .arg q) with
+  cases hc : checkSingle skip c ctes (visit .arg q) with
   | none => simp [hc] at h
   | some i => simp only [hc, Option.some.injEq] at h; exact ⟨i, rfl, h.symm⟩
 
 /-- when only names and constants sit in slots the walker skips (CTE names, column lists, …)
 a whole-query pushdown mentions only tables of the target integration (or CTE names) -/
-theorem C10_partial_pushdown (c : Catalog) (ctes : List Name) (q : Node) (steps : List Step)
-    (hns : skipLeafOnly q = true) (h : planTop c ctes q = some steps) :
-    ∃ i, steps = [.fetch i (strip i .noFrom .arg q)] ∧ ∀ parts ∈ allTables .arg q, belongs c ctes i parts := by
-  obtain ⟨i, hc, hs⟩ := planTop_spec c ctes q steps h
+theorem C10_partial_pushdown (skip : Bool) (names : List Name) (c : Catalog) (ctes : List Name) (q : Node)
+    (steps : List Step) (hns : skipLeafOnly q = true) (h : planTop skip names c ctes q = some steps) :
+    ∃ i, steps = [.fetch i (strip i names .noFrom .arg q)] ∧
+      ∀ parts ∈ allTables .arg q, belongs skip c ctes i parts := by
+  obtain ⟨i, hc, hs⟩ := planTop_spec skip names c ctes q steps h
   refine ⟨i, hs, ?_⟩
   intro parts hp
   rw [← allTables_eq_visit .arg q hns] at hp
   obtain ⟨it, hit, hto⟩ := List.mem_filterMap.mp hp
-  obtain ⟨parts', integ, rest, rfl, hr, hcase⟩ := (checkSingle_sound c ctes _ i hc).1 it hit
+  obtain ⟨parts', rfl, hcase⟩ := (checkSingle_sound skip c ctes _ i hc).1 it hit
   simp only [tableOf, Option.some.injEq] at hto
   subst hto
-  exact ⟨integ, rest, hr, hcase⟩
+  exact hcase
 
 def Step.integration : Step → Name
   | .fetch i _ => i
@@ -192,38 +205,39 @@ def caseQuery : Node :=
 
 /-- the whole query is sent to `int1` although it mentions `int2.t2` -/
 theorem C10_witness_3 :
-    (planTop cat2 [] caseQuery).map (·.map Step.integration) = some [n!"int1"] ∧
+    (planTop false [] cat2 [] caseQuery).map (·.map Step.integration) = some [n!"int1"] ∧
     [n!"int2", n!"t2"] ∈ allTables .arg caseQuery ∧
     resolveSimple cat2 [n!"int2", n!"t2"] = some (n!"int2", [n!"t2"]) := by decide
 
 theorem C10_pushdown_full_false : ¬ C10_pushdown_full := fun h => by
-  cases hp : planTop cat2 [] caseQuery with
+  cases hp : planTop false [] cat2 [] caseQuery with
   | none => have := C10_witness_3.1; rw [hp] at this; exact absurd this (by decide)
   | some steps =>
-    obtain ⟨i, hs, hall⟩ := h cat2 [] caseQuery steps hp
+    obtain ⟨i, hs, hall⟩ := h false [] cat2 [] caseQuery steps hp
     have h1 := C10_witness_3.1
     rw [hp, hs] at h1
     simp only [Option.map_some, List.map_cons, List.map_nil, Step.integration, Option.some.injEq,
       List.cons.injEq, and_true] at h1
-    obtain ⟨integ, rest, hr, hcase⟩ := hall _ C10_witness_3.2.1
-    rw [C10_witness_3.2.2] at hr
-    simp only [Option.some.injEq, Prod.mk.injEq] at hr
-    rcases hcase with ⟨he, _⟩ | ⟨hpj, _⟩
-    · rw [← hr.1, h1] at he; exact absurd he (by decide)
-    · rw [← hr.1] at hpj; exact absurd hpj (by decide)
+    rcases hall _ C10_witness_3.2.1 with ⟨hsk, _⟩ | ⟨integ, rest, hr, hcase⟩
+    · exact absurd hsk (by decide)
+    · rw [C10_witness_3.2.2] at hr
+      simp only [Option.some.injEq, Prod.mk.injEq] at hr
+      rcases hcase with ⟨he, _⟩ | ⟨hpj, _⟩
+      · rw [← hr.1, h1] at he; exact absurd he (by decide)
+      · rw [← hr.1] at hpj; exact absurd hpj (by decide)
 
 /-- the excluded class of `C10_partial_stripped` is inhabited (`int1.int1.t` keeps `int1.t`); this is
 the cut removing exactly one part, not a defect -/
 theorem C10_witness_5 :
-    visitedIdents (strip n!"int1" .noFrom .tbl (.ident [n!"int1", n!"int1", n!"t"] false none)) =
-      [([n!"int1", n!"t"], false)] := by decide
+    visitedIdents .tbl (strip n!"int1" [] .noFrom .tbl (.ident [n!"int1", n!"int1", n!"t"] false none)) =
+      [([n!"int1", n!"t"], false, true)] := by decide
 
 theorem C10_stripped_full_false : ¬ C10_stripped_full := fun h => by
-  have := h n!"int1" .noFrom .tbl (.ident [n!"int1", n!"int1", n!"t"] false none) ([n!"int1", n!"t"], false)
+  have := h n!"int1" [] .noFrom .tbl (.ident [n!"int1", n!"int1", n!"t"] false none) ([n!"int1", n!"t"], false, true)
     (by rw [C10_witness_5]; simp)
   exact absurd this (by decide)
 
-example : ∀ x ∈ visitedIdents caseQuery, doubleQual n!"int1" x.1 x.2 = false := by decide
+example : ∀ x ∈ visitedIdents .arg caseQuery, doubleQual n!"int1" x.1 x.2.1 = false := by decide
 
 /-! ## T10.4 -/
 
@@ -254,6 +268,39 @@ the remaining parts (name, version) are kept -/
 theorem C10_model_join : C10_model_join_full := fun c parts => by
   unfold predictorStepJoin predictorStepJoinWith
   rw [resolveJoin_eq_simple c parts]
+
+/-- T10.4, join path, the link to the record: for a catalog built by the constructor from list metadata (or a
+legacy dict without dotted keys) and dot-free names, a model written `q.name[.version]` in a join gets the apply
+step namespace = the record's own `integration_name` (lower-cased) and predictor = `name[.version]` -/
+theorem C10_model_join_project (i : CatalogIn)
+    (hpm : match i.preds with
+      | .none => True
+      | .list _ => True
+      | .legacy ps => ∀ p ∈ ps, dot ∉ p.name)
+    (q name : Name) (ver : Option Name) (hv : ∀ v, ver = some v → isDigitStr v = true)
+    (hn : isDigitStr name = false) (view : PredView) (P : Name)
+    (hg : getPredictor (mkCatalog i) (q :: name :: ver.toList) = some view) (hP : view.project = some P)
+    (hq : dot ∉ q) (hPd : dot ∉ P) :
+    predictorStepJoin (mkCatalog i) (q :: name :: ver.toList) = some (lower P, name :: ver.toList) := by
+  rw [C10_model_join, show isPredictor (mkCatalog i) (q :: name :: ver.toList) = true by simp [isPredictor, hg]]
+  exact model_qualified_resolves_to_project _ (wfPreds_mkCatalog i hpm) q name ver hv hn view P hg hP hq hPd
+
+/-- the same for a bare `name[.version]` under a dot-free default namespace -/
+theorem C10_model_join_project_default (i : CatalogIn)
+    (hpm : match i.preds with
+      | .none => True
+      | .list _ => True
+      | .legacy ps => ∀ p ∈ ps, dot ∉ p.name)
+    (d name : Name) (ver : Option Name) (hd : i.defaultNs = some d) (hdd : dot ∉ d)
+    (hv : ∀ v, ver = some v → isDigitStr v = true ∧ lower name ∉ (mkCatalog i).databases)
+    (hn : isDigitStr name = false) (view : PredView) (P : Name)
+    (hg : getPredictor (mkCatalog i) (name :: ver.toList) = some view) (hP : view.project = some P)
+    (hPd : dot ∉ P) :
+    predictorStepJoin (mkCatalog i) (name :: ver.toList) = some (lower P, name :: ver.toList) := by
+  rw [C10_model_join, show isPredictor (mkCatalog i) (name :: ver.toList) = true by simp [isPredictor, hg]]
+  have hdn : (mkCatalog i).defaultNs = some (lower d) := by simp [mkCatalog, hd]
+  exact model_unqualified_resolves_to_project _ (wfPreds_mkCatalog i hpm) (lower d) name ver hdn (lower_idem d) hv hn
+    view P hg hP (fun h => hdd ((dot_mem_lower d).mp h)) hPd
 
 /-- `integrations=['int1','int2'], default_namespace='proj', predictor_metadata=[{'name':'pred','integration_name':'mindsdb'}]` -/
 def catP : Catalog :=
